@@ -10,7 +10,8 @@ EXTENDS Store, Json
 B == BlockSize
 PerBlock == {1, 2, 5}
 NumBlocksSet == {1, 2, 5, 6, 7, 8, 9, 16, 63, 64, 65, 72}
-Shapes == {"single", "stack", "recompress_del", "mixed", "del_only", "switch", "switch_del"}   \* switch: merged under another compressor
+Shapes == {"single", "stack", "recompress_del", "mixed", "del_only", "switch", "switch_del",
+           "filt_one", "filt_edges", "filt_own", "filt_all"}   \* switch: merged under another compressor; filt_*: filtered merges
 Caches == {0, 1, 2, 100}
 
 \* size of a document such that exactly k of them fill a block
@@ -32,22 +33,29 @@ SegRec(sz, blocks) == [sizes |-> sz, blocks |-> Len(blocks), layers |-> NumLayer
 Case(k, nb, tail, big, shape, c, s1, b1, r1, s2, b2, r2) ==
   LET n1 == Len(s1)
       same == shape \notin {"switch", "switch_del"}
-      dels == IF shape \in {"recompress_del", "del_only", "switch_del"} THEN {1, (n1 + 1) \div 2, n1} ELSE {}
-      st1 == Stacks(b1, AllAlive(b1) \ {d - 1 : d \in dels}, same)
+      \* filtered merge (merge_filtered_segments): doc ids (0-based) the caller's alive bitset removes from source 1 / 2
+      filtered == shape \in {"filt_one", "filt_edges", "filt_own", "filt_all"}
+      filt1 == IF shape = "filt_one" THEN {n1 \div 2} ELSE {}
+      filt2 == IF shape = "filt_edges" THEN {b1[i].ids[1] - 1 : i \in {j \in 1..Len(b1) : j % 2 = 1}}
+               ELSE IF shape = "filt_own" THEN AllAlive(b1) \ {n1 \div 2} ELSE {}
+      dels == IF shape \in {"recompress_del", "del_only", "switch_del", "filt_own"} THEN {1, (n1 + 1) \div 2, n1} ELSE {}
+      st1 == Stacks(b1, EffectiveAlive(AllAlive(b1) \ {d - 1 : d \in dels}, AllAlive(b1) \ filt1), same)
       srcB == IF shape \in {"single", "del_only"} THEN <<b1>> ELSE IF shape = "mixed" THEN <<b1, ShiftIds(b2, n1)>> ELSE <<b1, ShiftIds(b1, n1)>>
-      al1 == AllAlive(b1) \ {d - 1 : d \in dels}
-      alv == IF Len(srcB) = 1 THEN <<al1>> ELSE <<al1, AllAlive(srcB[2])>>
+      al1 == EffectiveAlive(AllAlive(b1) \ {d - 1 : d \in dels}, AllAlive(b1) \ filt1)
+      alv == IF Len(srcB) = 1 THEN <<al1>> ELSE <<al1, AllAlive(srcB[2]) \ filt2>>
       szs == IF shape = "mixed" THEN s1 \o s2 ELSE s1 \o s1
       rev(q) == IF Len(q) = 1 THEN q ELSE <<q[2], q[1]>>
   IN [k |-> k, nb |-> nb, tail |-> tail, big |-> big, shape |-> shape, cache |-> c, blocksize |-> B,
       merged_blocks |-> IF shape = "single" THEN <<>>
                         ELSE <<Len(MergeC(srcB, alv, szs, B, same)), Len(MergeC(rev(srcB), rev(alv), szs, B, same))>>,
       switch_codec |-> ~same,
+      filtered |-> filtered, filter_none |-> shape # "filt_all",
+      filter_ids |-> {d + 1 : d \in filt1} \cup {d + 1 + n1 : d \in filt2},
       segs |-> IF shape \in {"single", "del_only"} THEN <<r1>> ELSE IF shape = "mixed" THEN <<r1, r2>> ELSE <<r1, r1>>,
       deletes |-> dels, merge |-> shape # "single",
       expect_stack |-> IF shape \in {"single", "del_only"} THEN <<st1>>
                        ELSE IF shape = "mixed" THEN <<st1, Stacks(b2, AllAlive(b2), TRUE)>>
-                       ELSE <<st1, Stacks(b1, AllAlive(b1), same)>>]
+                       ELSE <<st1, Stacks(b1, AllAlive(b1) \ filt2, same)>>]
 
 VARIABLE done
 GInit ==
